@@ -737,3 +737,11 @@ def run(idx, rep, tier):
     inbound_state_table(k, 'C08.R8', only=('_process_window_adjust',
                                             '_process_data',
                                             '_process_extended_data'))
+    from .shared import communicate_resumes, water_mark_table
+    rep.rule('C08.R9', 'sender-side back-pressure: _pause_resume_writing '
+             'evaluated over buffer lengths around both water marks '
+             '(including a low-water mark of 0); communicate() lifts the '
+             'receive buffer limit first and re-runs the resume test after '
+             'it on every path')
+    water_mark_table(k, 'C08.R9')
+    communicate_resumes(k, 'C08.R9')
